@@ -147,10 +147,16 @@ def scope_ast(toks, context, prelude):
         if t == 'letx': return Let('x', lit())
         if t == 'lety': return Let('y', lit())
         if t == 'letxx': return Let('x', Op('+', V('x'), lit()))
+        if t == 'letxeq': return Let('x', V('x'))
         if t == 'setx': return Asg('x', lit())
         if t == 'sety': return Asg('y', lit())
-        if t == 'readx': return Pr('x=~\\n', [V('x')])
-        if t == 'ready': return Pr('y=~\\n', [V('y')])
+        # a read is written directly or, at every other token position, through the field initializer of an object created on the spot
+        # (field initializers are evaluated in the enclosing scope, unlike method bodies)
+        if t in ('readx', 'ready'):
+            v = t[4]
+            if pos[0] % 2 == 0:
+                return Pr(v + '=~\\n', [GF(Obj(N(), [Let('w', I(0)), Let('v', V(v))]), 'v')])
+            return Pr(v + '=~\\n', [V(v)])
         if t == 'callf': return Call('f', [])
         if t == 'callm': return MC(V('o'), 'm', [])
         if t == 'methrx': return Pr('mx=~\\n', [MC(Obj(N(), [Fun('g', [], V('x'))]), 'g', [])])
@@ -203,7 +209,7 @@ def shadow_relevant(toks):
             depth -= 1
         elif x.startswith('let') and depth > 0:
             v = x[3]
-            if any(y in ('let' + v, 'let' + v + v, 'set' + v, 'read' + v, 'methr' + v, 'methw' + v) for j, y in enumerate(toks) if j != i):
+            if any(y in ('let' + v, 'let' + v + v, 'let' + v + 'eq', 'set' + v, 'read' + v, 'methr' + v, 'methw' + v) for j, y in enumerate(toks) if j != i):
                 return True
     return False
 
@@ -230,6 +236,21 @@ def sibling_relevant(toks):
         if 'let' + v in toks[b1[0]:b1[1]] and any(y in ('read' + v, 'set' + v, 'methr' + v, 'methw' + v) for y in toks[b2[0]:]):
             return True
     return False
+
+
+def copy_relevant(toks):
+    """let x = x inside a block over an x declared in the same frame, changed inside the block and read after it (the copy must not alias the original)"""
+    if 'letxeq' not in toks:
+        return False
+    i = toks.index('letxeq')
+    depth_at = lambda k: toks[:k].count('begin') - toks[:k].count('end')
+    if depth_at(i) == 0 or not any(t in ('letx', 'letxx') and depth_at(k) < depth_at(i) for k, t in enumerate(toks[:i])):
+        return False
+    rest = toks[i + 1:]
+    if 'end' not in rest:
+        return False
+    e = rest.index('end')
+    return any(t in ('setx', 'methwx') for t in rest[:e]) and any(t in ('readx', 'methrx', 'callf') for t in rest[e:])
 
 
 SIMILAR_NAMES = ['x', 'x1', 'x10', 'x11', 'x2', 'x0', 'x_', 'xx', 'y', 'y1', 'y10', '_', '_1']
@@ -291,7 +312,7 @@ def c12(tier):
     maxlen = 5
     chk.rule = ('TLC enumerates on the fly every statement sequence (MC_Scope: let/assign/read of x and y, call f, call o.m, inline objects whose method reads/assigns the free name x, begin/end to depth 2, if-true, if-false-else, '
                 'while-once) up to %d statements; each is placed at top level, in a top-level block, in a function body and in a method body, with and without global x, y '
-                '(thorough: all 8 placements up to length %d, one placement round-robin beyond; quick: 8 placements to length 2, 1-4 at length 3, two placements for every length-4 sequence in which a block-local let meets another mention of the same name and for every length-5 sequence with two sibling blocks sharing a name), written literals numbered; TLC runs the README semantics FMLSource on the AST (scope '
+                '(thorough: all 8 placements up to length %d, one placement round-robin beyond; quick: 8 placements to length 2, 1-4 at length 3, two placements for every length-4 sequence in which a block-local let meets another mention of the same name and for every length-5 sequence with two sibling blocks sharing a name or with a copy let x = x that is changed inside its block and read after it), written literals numbered; TLC runs the README semantics FMLSource on the AST (scope '
                 'stack, LeaveRestores and CallIsolated checked in every state) and the real pipeline must print the same values and stop at the same point. '
                 'Plus seeded frames with 9-14 blocks (siblings and nested) whose variables have names that are textual extensions of one another (x, x1, x10, ...), every block printing every visible name. '
                 'distinct_nontrivial = distinct programs judged inside the fragment.' % (maxlen, 4 if tier == 'thorough' else 3))
@@ -317,6 +338,8 @@ def c12(tier):
             places = [('fun', True), ('block', True)] if si % 2 == 0 else [('meth', True), ('top', True)]
         elif nst == 5 and sibling_relevant(toks):
             places = [('fun', True), ('block', True)] if si % 2 == 0 else [('meth', True), ('block', False)]
+        elif nst == 5 and copy_relevant(toks):
+            places = [('fun', True), ('block', True), ('meth', False), ('top', True)]
         else:
             continue
         for (c, p) in places:
